@@ -9,7 +9,14 @@ fn main() {
     let r = std::panic::catch_unwind(std::panic::AssertUnwindSafe(|| {
         let root: schemars::schema::RootSchema = serde_json::from_value(v.clone()).unwrap();
         match ts.add_root_schema(root) {
-            Ok(_) => { println!("ADD: ok"); println!("{}", ts.to_stream()); }
+            Ok(_) => {
+                println!("ADD: ok");
+                println!("{}", ts.to_stream());
+                println!("FLAGS: serde_json={} uuid={} chrono={} regress={}", ts.uses_serde_json(), ts.uses_uuid(), ts.uses_chrono(), ts.uses_regress());
+                for t in ts.iter_types() {
+                    println!("TYPE {} : Display={} FromStr={} Default={} builder={}", t.name(), t.has_impl(TypeSpaceImpl::Display), t.has_impl(TypeSpaceImpl::FromStr), t.has_impl(TypeSpaceImpl::Default), t.builder().is_some());
+                }
+            }
             Err(e) => println!("ADD: Err({})", e),
         }
     }));
